@@ -389,6 +389,9 @@ def run_op(e, op, tl):
         e.last = e.add(result, nsidx)
         return fails, bool(fails)
     # in-place operations
+    shared = _shared_rows(e)
+    if shared:
+        fails.append(("%s.rows_independent" % name, shared))
     got = CM.raw_rows(e.mats[tgt])
     if not CM.rows_eq(got, exp_rows):
         nsidx = md["ns"]
@@ -403,6 +406,18 @@ def run_op(e, op, tl):
         fails.append(("%s.args_unchanged" % name, "; ".join(bad)))
     e.last = tgt
     return fails, bool(fails)
+
+
+def _shared_rows(e):
+    """no sequence OBJECT is listed under two taxa or in two matrices: otherwise an in-place change of one row shows in another"""
+    seen = {}
+    for i, m in enumerate(e.mats):
+        for tx, seq in m._taxon_sequence_map.items():
+            k = id(seq)
+            if k in seen and seen[k] != (i, tx.label):
+                return "matrix %d row %r and matrix %d row %r are one and the same sequence object" % (seen[k][0], seen[k][1], i, tx.label)
+            seen[k] = (i, tx.label)
+    return None
 
 
 def eval_job(job, tl=TL, _confirm=True):
